@@ -1,5 +1,6 @@
 /* temporary stubs while the harness is being built */
 #include "common.h"
+#include "have.h"
 #define STUB(f) int f(void) { rep_fatal(#f " not built yet"); }
 #ifndef HAVE_CODEC
 STUB(p_codec)
